@@ -154,6 +154,22 @@ def run(chk):
         else:
             chk.violation("C05.once.start", hreq, "resp, reset = await self.finish_response(request, resp, start_time)", "except Exception as exc: self.handle_error(request, 500, exc)",
                           "a response that fails to start escapes _handle_request(): the client gets no answer, only a dropped connection")
+    # (fifth hunt, F277) the same for every other response that is not handle_error()'s own: the response built from a raised HTTPException
+    # carries headers, reason and text of the application (and runs the prepare hooks) just like a returned one
+    nother = 0
+    for f in [f for f in fins if f not in own]:
+        blk = PC._block_of(f.ast) or []
+        i = blk.index(f.ast) if f.ast in blk else -1
+        prev = blk[i - 1] if i > 0 else None
+        if prev is not None and M.contains(prev, "self.handle_error(...)"):
+            continue  # the error page of handle_error(): a failure here has no further fallback
+        nother += 1
+        if gh.find_path(None, lambda n: n in e500, lambda n: False, EXPLICIT, start_edges=[(f, "x-await"), (f, "x-call")]) is not None:
+            chk.ok("C05.once.start", f, "an exception out of finishing the response of a raised HTTPException reaches handle_error(request, 500, exc)")
+        else:
+            chk.violation("C05.once.start", f.ast, K.short(f.ast), "except Exception as exc: resp = self.handle_error(request, 500, exc); finish_response(...)",
+                          "the response built from a raised web.HTTPException fails to start (a header value with CR/LF from the request, an on_response_prepare hook that raises, an unknown charset) and the exception escapes _handle_request(): the client gets no answer at all, only a dropped connection - the same response returned instead of raised is answered 500")
+    chk.expect_count("C05.once.start.other", nother, 1, "finish_response() calls that take a response built from an HTTPException")
     # outcome mapping
     want = [("asyncio.TimeoutError", "self.handle_error($R, 504)", "handler timeout -> 504"), ("Exception", "self.handle_error($R, 500, $E)", "handler error -> 500")]
     for h in [h for t in ast.walk(hreq.node) if isinstance(t, ast.Try) for h in t.handlers]:
@@ -285,6 +301,7 @@ def run(chk):
     chk.expect_count("C05.cap.stays", len(stays), 2, "stay-paused exits of _resume_msg_queue_reading()")
     hunt2_rules(chk, repo)
     hunt4_rules(chk, repo)
+    hunt5_rules(chk, repo)
     # ---- C05.wake ---------------------------------------------------------------------------------------------------
     sr = K.exprs(dr, "$W.set_result(None)")
     if not sr:
@@ -469,6 +486,41 @@ def url_validated(chk, repo, errs, rule):
             chk.ok(rule, t, "the lazily validated host/port split is forced inside the same try (BaseRequest.__init__ and handlers can read it safely)")
         else:
             chk.violation(rule, t, "try: url = URL(...)", "url.host inside the try", "yarl validates host/port lazily: an out-of-range or non-numeric port raises later, in the unprotected part of the request loop")
+
+
+def hunt5_rules(chk, repo):
+    """Rules written after the fifth defect hunt (F278)."""
+    import itertools
+    from sa.dtable import Evaluator
+    # ---- C05.lost.task: a start() task that connection_lost() lets go of has been cancelled ----------------------------------------------------------
+    # connection_lost() forgets the task (`self._task_handler = None`) unless a handler still runs; shutdown() can then no longer cancel it.  A
+    # task that is forgotten while it only waits - for the next request, or in the lingering read of a body that can no longer arrive - has to
+    # be cancelled by the same call, or it stays parked (for lingering_time, or for ever) with the connection listed as alive.
+    cl = repo.func(PROTO, "RequestHandler.connection_lost")
+    forget = [a for a in ast.walk(cl.node) if isinstance(a, ast.Assign) and norm.raw(a.targets[0]) == "self._task_handler" and isinstance(a.value, ast.Constant) and a.value.value is None]
+    cancels = [c for c in prog.calls_in(cl.node) if norm.raw(c.func) == "self._task_handler.cancel"]
+    if not forget:
+        chk.analysis_error("C05.lost.task: `self._task_handler = None` not found in RequestHandler.connection_lost")
+        return
+    def cond(node):
+        tests = [i.test for i in prog.enclosing(node, (ast.If,)) if any(x is node for b_ in i.body for x in ast.walk(b_))]
+        return tests
+    bad = None
+    for hc, rip in itertools.product((False, True), (False, True)):
+        env = {"handler_cancellation": hc, "self._request_in_progress": rip, "self._task_handler": object(), "self._manager.handler_cancellation": hc}
+        try:
+            f_on = all(bool(Evaluator(dict(env)).ev(t)) for t in cond(forget[0]))
+            c_on = any(all(bool(Evaluator(dict(env)).ev(t)) for t in cond(K.stmt_of(c))) for c in cancels)
+        except Exception as e:
+            chk.analysis_error(f"C05.lost.task: cannot evaluate the conditions of connection_lost(): {e}")
+            return
+        if f_on and not c_on:
+            bad = (hc, rip)
+    if bad is None:
+        chk.ok("C05.lost.task", forget[0], "connection_lost(): whenever the start() task is forgotten (no handler running, or handler_cancellation) it is cancelled in the same call - all 4 rows")
+    else:
+        chk.violation("C05.lost.task", forget[0], K.short(forget[0]), "self._task_handler.cancel() under the condition that forgets the task",
+                      f"connection_lost() lets go of the start() task without cancelling it (handler_cancellation={bad[0]}, request in progress={bad[1]}): a task that idles, or reads the rest of a body in the lingering loop after the client went away, stays parked for lingering_time with the connection still listed, and shutdown() cannot cancel what it no longer knows")
 
 
 def hunt4_rules(chk, repo):
